@@ -320,7 +320,7 @@ package kafka
 //@   option noframe
 //@   modifies nothing
 //@   assume partitionsCache is written only by loadCachedPartitions, whose Store is proved to store the identity list
-//@   assumeat "partitionsCache.Load().([]int)" ok ==> (forall i :: 0 <= i && i < len(partitions) ==> partitions[i] == i)
+//@   assumeat ".([]int)" ok ==> (forall i :: 0 <= i && i < len(partitions) ==> partitions[i] == i)
 //@   callsite (*Value).Store requires forall i :: 0 <= i && i < len(partitions) ==> partitions[i] == i
 //@   ensures len(result) == numPartitions && (forall i :: 0 <= i && i < len(result) ==> result[i] == i)
 //@   loop 0 invariant -1 <= rangeindex && rangeindex < len(partitions) && len(partitions) == n && n >= numPartitions + 1 && fresh(partitions)
